@@ -169,10 +169,11 @@ type DA struct {
 	Height  uint64
 	MaxBlob uint64
 	// retrieval script: per DA height a list of outcomes consumed per attempt; default: serve Blobs
-	Fetch     map[uint64][]string // "ok","notfound","future","errids","errget"
+	Fetch     map[uint64][]string // "ok","notfound","future","errids","errget[:c]"; text-only variants (a proxied DA): "notfoundtext","futuretext","errgettext[:c]"
 	FetchLog  []string
 	GetCalls  int
 	failGet   bool
+	failText  bool // the scripted Get failure is a text-only "height from future" error (what a proxied DA returns)
 	failChunk int
 }
 
